@@ -11,6 +11,7 @@ package commitlog
 
 import (
 	"fmt"
+	"hash/fnv"
 	"os"
 	"sort"
 	"strings"
@@ -21,6 +22,13 @@ import (
 func c08KeyStr(k []byte) string {
 	if k == nil {
 		return "nil"
+	}
+	if len(k) > 12 {
+		// long keys (units keysizes / recovery): length, both ends and a hash
+		// of the whole key; the unit's replay says how the key is built.
+		h := fnv.New32a()
+		h.Write(k)
+		return fmt.Sprintf("[%dB:%x..%x#%08x]", len(k), k[:3], k[len(k)-3:], h.Sum32())
 	}
 	return fmt.Sprintf("%q", k)
 }
@@ -66,8 +74,10 @@ type c08Env struct {
 	hw    int64
 	ts    int64
 	epoch uint64
-	trace []string // replay: what the harness did
-	keys  []string // replay: key of every appended message, by offset
+	trace []string       // replay: what the harness did
+	keys  []string       // replay: key of every appended message, by offset
+	extra map[string]any // replay: unit-specific facts (how keys are built, case seed, ...)
+	nfail int            // violations this case reported so far
 
 	// coverage
 	cleans, removedMsgs, droppedSegs int
@@ -105,6 +115,9 @@ func (e *c08Env) replay(extra map[string]any) map[string]any {
 		"hw":                   e.hw,
 		"steps":                strings.Join(e.trace, " "),
 	}
+	for k, v := range e.extra {
+		m[k] = v
+	}
 	for k, v := range extra {
 		m[k] = v
 	}
@@ -112,6 +125,7 @@ func (e *c08Env) replay(extra map[string]any) map[string]any {
 }
 
 func (e *c08Env) fail(fp, what string, extra map[string]any) {
+	e.nfail++
 	e.rep.Violation(fp, what, e.replay(extra))
 }
 
@@ -265,8 +279,16 @@ func c08MustSurvive(model []vfRec, hw, newestBase, floor int64) c08Must {
 	return must
 }
 
+// c08LongKey: keys of at least this many bytes are "long" (the short-key
+// generators never produce them); a lost latest-for-key message with a long
+// key gets its own fingerprint class.
+const c08LongKey = 32
+
 // lostClass refines the fingerprint of a lost must-survive record.
 func c08LostClass(model []vfRec, hw int64, lost vfRec, reason string) string {
+	if reason == "latest-for-key" && len(lost.Key) >= c08LongKey {
+		return "latest-for-key:long-key"
+	}
 	if reason == "latest-for-key" && lost.Key != nil && len(lost.Key) == 0 {
 		for _, r := range model {
 			if r.Off > lost.Off && r.Off <= hw && r.Key == nil {
@@ -280,10 +302,26 @@ func c08LostClass(model []vfRec, hw int64, lost vfRec, reason string) string {
 // clean runs one real Clean() and checks the result against the oracle.
 // It returns false when the case cannot continue.
 func (e *c08Env) clean(rng *kit.RNG) bool {
+	must, nsegs, ok := e.cleanPrep()
+	if !ok {
+		return false
+	}
+	if err := e.log.Clean(); err != nil {
+		e.fail("C08:clean-error", fmt.Sprintf("Clean failed: %v", err), nil)
+		return false
+	}
+	e.cleans++
+	return e.verify(rng, must, nsegs)
+}
+
+// cleanPrep computes, right before a Clean(), the must-survive set of that
+// clean from the harness's own view (raw parse of the segment files, model,
+// HW the harness set) and the number of segments.
+func (e *c08Env) cleanPrep() (c08Must, int, bool) {
 	pre, _, err := e.segStats()
 	if err != nil {
 		e.fail("C08:pre-clean-scan", fmt.Sprintf("before Clean: %v", err), nil)
-		return false
+		return nil, 0, false
 	}
 	if len(pre) > e.maxSegsSeen {
 		e.maxSegsSeen = len(pre)
@@ -295,12 +333,7 @@ func (e *c08Env) clean(rng *kit.RNG) bool {
 	}
 	must := c08MustSurvive(e.model, e.hw, newestBase, floor)
 	e.trace = append(e.trace, fmt.Sprintf("Clean(segs=%d,newestBase=%d)", len(pre), newestBase))
-	if err := e.log.Clean(); err != nil {
-		e.fail("C08:clean-error", fmt.Sprintf("Clean failed: %v", err), nil)
-		return false
-	}
-	e.cleans++
-	return e.verify(rng, must, len(pre))
+	return must, len(pre), true
 }
 
 // verify reads everything back and compares it with the model / must-survive
